@@ -265,6 +265,52 @@ def run_main(fn):
     sys.exit(rc)
 
 
+def generic_replay(path):
+    """./check <ID> --replay <file>: shows the recorded case and runs its program(s) again on the CURRENT tree (compile, and if that works
+    link and run), so that the recorded observation can be compared with today's. Informational: exit 0."""
+    import ddp
+    d = json.load(open(path))
+    case = d.get("case") or {}
+    print("property   :", d.get("property"))
+    print("case key   :", d.get("key"))
+    print("description:", d.get("description"))
+    files = None
+    if isinstance(case.get("files"), dict):
+        files = dict(case["files"])
+    elif isinstance(case.get("source"), str):
+        files = {"m.ddp": case["source"]}
+    for k in ("event", "expected", "observed", "prototype", "signature", "fault_class", "cfg", "opt"):
+        if k in case:
+            print("%-11s: %s" % (k, json.dumps(case[k], ensure_ascii=False)[:1500]))
+    if not files:
+        print("(the case holds no program source; the record above is the whole case)")
+        return 0
+    runner = ddp.Runner()
+    dd = runner.newdir()
+    for rel, text in files.items():
+        pth = os.path.join(dd, rel)
+        os.makedirs(os.path.dirname(pth), exist_ok=True)
+        with open(pth, "wb") as f:
+            f.write(text if isinstance(text, bytes) else text.encode("utf-8", "surrogateescape"))
+    main = case.get("main") or ("main.ddp" if "main.ddp" in files else "m.ddp" if "m.ddp" in files else sorted(f for f in files if f.endswith(".ddp"))[0])
+    extra = []
+    if "callee.c" in files:
+        inc = os.path.join(runner.sut, "src", "lib", "runtime", "include")
+        subprocess.run(["gcc", "-c", "-O1", "-I", inc, "callee.c", "-o", "callee.o"], cwd=dd)
+        extra = [os.path.join(dd, "callee.o")]
+    for o in ([case["opt"]] if isinstance(case.get("opt"), int) else [0, 2]):
+        ok, stage, msg, exe = runner.build(dd, main, opt=o, extra_objs=extra)
+        print("---- -O%d on the current tree: %s" % (o, "built" if ok else "does not build (%s)" % stage))
+        if not ok:
+            print(msg[-2500:])
+            continue
+        r = runner.execute(exe)
+        print("exit status %s%s" % (r["code"], " (TIMEOUT)" if r["timeout"] else ""))
+        print("stdout: %r" % r["out"].decode("utf-8", "replace")[:3000])
+        print("stderr: %r" % r["err"][:1500])
+    return 0
+
+
 def write_ndjson(path, records):
     with open(path, "w") as f:
         for r in records:
